@@ -5,6 +5,27 @@ from vlib import Rng, fhex, unhex
 import remesh_common as RC
 
 
+def swap_candidates_with_cd_edge(st):
+    """edges a-b whose two opposite nodes c, d are already joined by an edge while neither a nor b has valence 3"""
+    und = {(a, b): (f1, f2) for (a, b, f1, f2) in st.edges}
+    val = {}
+    for (a, b) in und:
+        val[a] = val.get(a, 0) + 1; val[b] = val.get(b, 0) + 1
+    out = []
+    for (a, b), (f1, f2) in und.items():
+        if f1 is None or f2 is None or f1 >= len(st.faces) or f2 >= len(st.faces):
+            continue
+        F1, F2 = st.faces[f1], st.faces[f2]
+        if not F1["used"] or not F2["used"]:
+            continue
+        c = [n for n in F1["n"] if n not in (a, b)]
+        d = [n for n in F2["n"] if n not in (a, b)]
+        if len(c) == 1 and len(d) == 1 and c[0] != d[0]:
+            if (min(c[0], d[0]), max(c[0], d[0])) in und and val.get(a, 0) > 3 and val.get(b, 0) > 3:
+                out.append((a, b))
+    return out
+
+
 def run_histories(pid, tier, seed, n_hist, oracle_state, oracle_refine, oracle_single, widen=False):
     """drives histories; calls the property's oracles:
        oracle_state(st, label)                -> list of failure texts (after every dump of the implementation)
@@ -136,11 +157,21 @@ def run_histories(pid, tier, seed, n_hist, oracle_state, oracle_refine, oracle_s
                 st = dump("pre-single")
                 if st is None:
                     break
-                for _ in range(r.randint(1, 6)):
+                last_op = None
+                nops = r.randint(1, 6)
+                for opi in range(nops):
                     if not st.edges:
                         break
                     (x, y, f1, f2) = r.choice(st.edges)
                     op = r.choice(["split", "swap", "merge", "merge"])
+                    # targeted picks: (i) a swap whose opposite nodes are already joined by an edge (the guard of swap_edge),
+                    # (ii) merge-then-split sequences, which leave free node slots but no free face slots before a rebase
+                    if op == "swap" and r.randint(0, 1):
+                        cand = swap_candidates_with_cd_edge(st)
+                        if cand:
+                            (x, y) = r.choice(cand)
+                    if opi > 0 and last_op == "merge" and r.randint(0, 1):
+                        op = "split"
                     before = st
                     if op == "merge":
                         a, b = S.send("canmerge %d %d" % (x, y))
@@ -160,12 +191,22 @@ def run_histories(pid, tier, seed, n_hist, oracle_state, oracle_refine, oracle_s
                     if after is None:
                         break
                     stats["single_" + op] += 1
+                    last_op = op
                     if b and "noop" in b:
                         stats["swap_noop"] += 1
                     for msg in oracle_single(op, x, y, before, after, a):
                         failures.append({"what": msg, "replay": list(S.trace)})
                     distinct.add((op, len(RC.live_tris(before)), a))
                     st = after
+                if st is not None and r.randint(0, 1):
+                    a, b = S.send("rebase")
+                    if a is None:
+                        break
+                    stats["rebases"] += 1
+                    free_state = (bool(st.free_nodes), bool(st.free_faces))
+                    stats.setdefault("rebase_free_states", {})
+                    stats["rebase_free_states"][str(free_state)] = stats["rebase_free_states"].get(str(free_state), 0) + 1
+                    st = dump("post-rebase")
             elif kind == "rebase":
                 a, b = S.send("rebase")
                 if a is None:
